@@ -833,3 +833,324 @@ Proof.
   split. { intros H. specialize (H 1%nat). vm_compute in H. specialize (H _ eq_refl eq_refl eq_refl). discriminate H. }
   split; [vm_compute; reflexivity|]. split; vm_compute; reflexivity.
 Qed.
+
+(* ---------------- writing to a file the OVERLAY already holds ---------------- *)
+Lemma LF_of_cview s nn d : cview s nn = Some (false, d) -> exists g, LF nn g s d None.
+Proof.
+  unfold cview. destruct (lookup s nn) as [g|] eqn:Hl; [|discriminate]. destruct (get_node s g) as [n|] eqn:Hn; [|discriminate].
+  destruct (ndir n) eqn:Hd; [discriminate|]. intros H. inversion H. exists g. split; [exact Hl|]. exists n. now repeat split.
+Qed.
+
+(* the directory CopyOnWriteFs.OpenFile looks at is filepath.Dir of the name AS GIVEN; it is the parent of
+   the normalised name whenever the last element of the name is an ordinary one *)
+Lemma dir_key_good_last name : wf_name name = true -> MemCreate.good_seg (snd (path_split name)) ->
+  normalize_path (path_dir name) = par (normalize_path name).
+Proof.
+  intros Hw Hg. pose proof (wf_name_canon name Hw) as Hc.
+  destruct (MemCreate.parent_key_by_split name Hg) as [H _]. unfold MemCreate.parent_key in H.
+  unfold path_dir at 1. rewrite normalize_clean, <- H.
+  change (path_dir (normalize_path name)) with (par (normalize_path name)). apply canon_norm. now apply canon_par.
+Qed.
+
+Section OverlayWrite.
+Notation cowmm := (cow_step m_step m_step).
+
+Theorem cow_write_overlay_file sb sl tbl name flag perm g d mt ops :
+  WF sb -> WF sl -> wf_name name = true ->
+  let nn := normalize_path name in
+  LF nn g sl d mt -> normalize_path (path_dir name) = par nn ->
+  Z.land flag cow_mask <> 0 -> flag_has flag o_excl && flag_has flag o_create = false ->
+  let i := length tbl in
+  Forall (fun o => op_handle_of o = Some i /\ file_op o = true) ops ->
+  let spec := ByteFile.bf_run (spec_open flag d) (map (fun o => op_set_handle o 0) ops) in
+  exists sb' sl' lh outs g',
+    run_steps cowmm (sb, sl, tbl) (OpenFile name flag perm :: ops) = ((sb', sl', tbl ++ [HL lh]), RHandle i :: outs) /\
+    length outs = length ops /\ MemFileProof.proj_all ops outs = snd spec /\
+    fs_view sb' = fs_view sb /\
+    LF nn g' sl' (ByteFile.bdata (fst spec)) None /\ WF sl' /\ (forall k, k <> nn -> cview sl' k = cview sl k).
+Proof.
+  intros Wb W Hw nn Hlf Hdir Hmask Hex i Hall spec.
+  pose proof (wf_name_canon name Hw) as Hc. fold nn in Hc.
+  destruct Hlf as [Hl (n & Hn & Hd & Hdn & _)].
+  assert (Hroot : nn <> s_slash).
+  { intros E. destruct (g_root _ _ _ _ W) as (r0 & n0 & Hl0 & Hn0 & _ & Hd0). rewrite E in Hl. congruence. }
+  destruct (g_par _ _ _ _ W nn g Hl (WF_fresh sl nn g W Hl) Hroot) as (p & pn & Hp & Hpn & Hpd & _); [intros [] | intros [] |].
+  assert (Hcv : cview sl nn = Some (false, d)) by (rewrite (cview_some sl nn g n Hl Hn), Hdn, Hd; reflexivity).
+  (* whatever the base says about the directory, the call ends in the overlay's own OpenFile on a state
+     that still holds the file *)
+  assert (Pre : exists (sb1 : mst) sl1, fs_view sb1 = fs_view sb /\ WF sl1 /\ (forall k, cview sl1 k = cview sl k) /\
+            cowmm (sb, sl, tbl) (OpenFile name flag perm) = open_layer m_step sb1 sl1 tbl (OpenFile name flag perm)).
+  { cbn [cow_step]. unfold cow_openfile. rewrite (is_base_file_mem sb sl name Wb W). fold nn. rewrite Hl.
+    destruct (Z.land flag cow_mask =? 0) eqn:Em; [apply Z.eqb_eq in Em; contradiction|]. cbn [negb].
+    rewrite (b_is_dir_mem sb (path_dir name) Wb), Hdir.
+    assert (LD : forall sb' : mst, fs_view sb' = fs_view sb ->
+              exists (sb1 : mst) sl1, fs_view sb1 = fs_view sb /\ WF sl1 /\ (forall k, cview sl1 k = cview sl k) /\
+                match l_is_dir m_step (tick sl) (path_dir name) with
+                | (sl2, inr er2) => ret sb' sl2 tbl (RErr er2)
+                | (sl2, inl true) => open_layer m_step sb' sl2 tbl (OpenFile name flag perm)
+                | (sl2, inl false) => ret sb' sl2 tbl (RErr (EW KENOTDIR))
+                end = open_layer m_step sb1 sl1 tbl (OpenFile name flag perm)).
+    { intros sb' Hv'. unfold l_is_dir. rewrite (layer_stat (tick sl) (path_dir name) (WF_tick _ W)), Hdir.
+      change (lookup (tick sl) (par nn)) with (lookup sl (par nn)). rewrite Hp.
+      change (get_node (tick sl) p) with (get_node sl p). rewrite Hpn. unfold finfo_of. cbn [fi_dir]. rewrite Hpd.
+      exists sb', (tick (tick sl)). split; [exact Hv'|]. split; [apply WF_tick, WF_tick, W|]. split; [intros k; reflexivity | reflexivity]. }
+    destruct (lookup sb (par nn)) as [rd|] eqn:Hbd.
+    - destruct (GWF_lookup_node _ _ _ _ _ _ Wb Hbd) as (nd & Hnd). rewrite Hnd. destruct (ndir nd).
+      + assert (Hwd : wf_name (path_dir name) = true) by (unfold wf_name; rewrite Hdir; apply (canon_par nn Hc)).
+        destruct (layer_mkdirall (tick sl) (path_dir name) 511 (WF_tick _ W) Hwd) as [(_ & Hno & _) | (_ & sl2 & Em' & W2 & _ & _ & _ & Hg)].
+        * rewrite Hdir in Hno. change (lookup (tick sl) (par nn)) with (lookup sl (par nn)) in Hno. congruence.
+        * rewrite Em'. exists (tick sb), sl2. split; [reflexivity|]. split; [exact W2|]. split; [|reflexivity].
+          (* nothing new: every directory MkdirAll could make is an ancestor the overlay already has *)
+          intros k. destruct (Hg k) as [E | (E1 & E2 & E3)]; [exact E|]. exfalso. rewrite cview_tick in E1. rewrite Hdir in E3.
+          assert (Hck : canon k) by exact (WF_cview_canon sl2 k _ W2 E2).
+          pose proof (self_or_anc_cview sl (par nn) p pn k W Hp Hpn Hpd Hck E3) as Hx. congruence.
+      + apply LD. reflexivity.
+    - cbn [is_not_exist ek EW negb]. apply LD. reflexivity. }
+  destruct Pre as (sb1 & sl1 & Hv1 & W1 & Hcv1 & Eopen).
+  destruct (LF_of_cview sl1 nn d (eq_trans (Hcv1 nn) Hcv)) as (g1 & Hlf1).
+  rewrite CopyUpProof.run_steps_cons, Eopen. unfold open_layer.
+  destruct (layer_openfile_existing nn g1 sl1 _ _ name flag perm eq_refl W1 Hlf1 Hex) as (sl2 & Eo & W2 & F2 & Hlf2 & Fr2).
+  rewrite Eo. cbn [alloc_ch ret]. set (lh := length (mhandles sl1)) in *. set (tbl1 := tbl ++ [HL lh]).
+  assert (Hi : nth_error tbl1 i = Some (HL lh)) by apply nth_error_app_last.
+  assert (Hall1 : Forall (fun o => op_handle_of o = Some i) ops) by (eapply Forall_impl; [|exact Hall]; now intros o [H _]).
+  rewrite (cow_run_overlay_handle m_step m_step i lh ops sb1 sl2 tbl1 Hi Hall1).
+  destruct (m_run_file_ops g1 lh (map (fun o => op_set_handle o lh) ops) sl2 _ _ (spec_open flag d) W2 F2
+              (open_spec_rel flag d g1) (Forall_retarget i lh ops Hall))
+    as (sl3 & outs & d3 & h3 & Er & Ep & W3 & F3 & R3 & Fr3).
+  rewrite Er. cbn [fst snd]. rewrite map_retarget_twice in Ep, R3. rewrite proj_all_retarget in Ep. fold spec in Ep, R3.
+  assert (Hlen : length outs = length ops).
+  { pose proof (run_steps_length m_step (map (fun o => op_set_handle o lh) ops) sl2) as Hx. rewrite Er, map_length in Hx. exact Hx. }
+  exists sb1, sl3, lh, outs, g1. split; [reflexivity|]. split; [exact Hlen|]. split; [exact Ep|]. split; [exact Hv1|].
+  assert (Hl3 : lookup sl3 nn = Some g1) by (rewrite (hop_frame_lookup g1 lh sl2 sl3 nn Fr3); apply Hlf2).
+  destruct R3 as [Hd3 _]. cbn [fdata] in Hd3. rewrite <- Hd3.
+  split; [exact (FH_LF nn g1 lh sl3 d3 h3 Hl3 F3)|]. split; [exact W3|].
+  intros k Hk'. destruct Hlf1 as [Hl1 _]. destruct Hlf2 as [Hl2 _].
+  rewrite (hop_frame_cview g1 lh sl2 sl3 nn W2 Hl2 Fr3 k Hk'), (hop_frame_cview g1 lh sl1 sl2 nn W1 Hl1 Fr2 k Hk'). apply Hcv1.
+Qed.
+End OverlayWrite.
+
+Lemma dir_key_ordinary_last name :
+  wf_name name = true ->
+  let b := snd (path_split name) in
+  b <> [] -> b <> s_dot -> b <> s_dotdot -> ~ In SLASH b ->
+  normalize_path (path_dir name) = par (normalize_path name).
+Proof. intros Hw b H1 H2 H3 H4. apply dir_key_good_last; [exact Hw|]. split; [split; [exact H1 | split; [exact H2 | exact H3]] | exact H4]. Qed.
+
+(* ---------------- handles never lose inertness; path methods only append handles ---------------- *)
+Lemma reg_handles s f perm : mhandles (reg s f perm) = mhandles s.
+Proof. destruct (MemCreate.reg_preserves s f perm) as (_ & _ & H & _). exact H. Qed.
+
+Lemma unregister_handles s k s1 b : unregister s k = Some (s1, b) -> mhandles s1 = mhandles s.
+Proof.
+  unfold unregister. destruct (lockfree_open s k) as [f|]; [|intros H; inversion H; reflexivity].
+  destruct (find_parent s f) as [p|]; [|discriminate]. destruct (get_node s p) as [pn|]; [|discriminate].
+  destruct (nhasdir pn); [|discriminate]. intros H. inversion H. apply mhandles_upd.
+Qed.
+
+Lemma rename_one_handles old new s d s1 b : rename_one old new s d = Some (s1, b) -> mhandles s1 = mhandles s.
+Proof.
+  unfold rename_one. destruct (unregister s (node_name s d)) as [[s0 [|]]|] eqn:E; [| |discriminate].
+  - intros H. inversion H. rewrite reg_handles. cbn [set_data mhandles]. rewrite mhandles_upd. exact (unregister_handles _ _ _ _ E).
+  - intros H. inversion H; subst. exact (unregister_handles _ _ _ _ E).
+Qed.
+
+Lemma rename_descs_handles old new : forall ds s removes s1 b rm, rename_descs old new s ds removes = Some (s1, b, rm) ->
+  mhandles s1 = mhandles s.
+Proof.
+  induction ds as [|d ds IH]; intros s removes s1 b rm; cbn [rename_descs]; [intros H; inversion H; reflexivity|].
+  destruct (rename_one old new s d) as [[s0 [|]]|] eqn:E; [| |discriminate].
+  - intros Hd. rewrite (IH _ _ _ _ _ Hd). exact (rename_one_handles _ _ _ _ _ _ E).
+  - intros Hd. inversion Hd; subst. exact (rename_one_handles _ _ _ _ _ _ E).
+Qed.
+
+Lemma m_rename_handles s p q : mhandles (fst (m_rename s p q)) = mhandles s.
+Proof.
+  unfold m_rename. destruct (lookup s (normalize_path p)) as [f|]; [|reflexivity].
+  destruct (beqb (normalize_path p) (normalize_path q)); [reflexivity|].
+  destruct (below_file s (normalize_path q)); [reflexivity|].
+  destruct (unregister s (normalize_path p)) as [[s1 [|]]|] eqn:E; [| |reflexivity].
+  - pose proof (unregister_handles _ _ _ _ E) as H1.
+    match goal with |- context [rename_descs ?o ?n ?s3 ?ds ?rm] => destruct (rename_descs o n s3 ds rm) as [[[s4 [|]] removes]|] eqn:Er end;
+      cbn [fst].
+    + rewrite reg_handles. cbn [set_data mhandles]. rewrite (rename_descs_handles _ _ _ _ _ _ _ _ Er). cbn [set_data mhandles].
+      rewrite mhandles_upd. exact H1.
+    + rewrite (rename_descs_handles _ _ _ _ _ _ _ _ Er). cbn [set_data mhandles]. rewrite mhandles_upd. exact H1.
+    + cbn [set_data mhandles]. rewrite mhandles_upd. exact H1.
+  - cbn [fst]. exact (unregister_handles _ _ _ _ E).
+Qed.
+
+Lemma set_file_mode_handles s k m : mhandles (fst (set_file_mode s k m)) = mhandles s.
+Proof. unfold set_file_mode. destruct (lookup s (normalize_path k)); [apply mhandles_upd | reflexivity]. Qed.
+
+Lemma m_create_node_handles s k : mhandles (fst (m_create_node s k)) = mhandles s.
+Proof. rewrite MemCreate.m_create_node_attach. cbn [fst]. destruct (MemCreate.attach_general s k (new_file k (mclock s)) 0) as (_ & _ & _ & H & _). exact H. Qed.
+
+(* a path method leaves every existing handle where and as it is (it may append one) *)
+Lemma path_op_handles s o : op_handle_of o = None ->
+  exists extra, mhandles (fst (m_step s o)) = mhandles s ++ extra.
+Proof.
+  intros Ho. rewrite m_step_tick. cbn [fst]. change (mhandles (tick (fst (m_step_raw s o)))) with (mhandles (fst (m_step_raw s o))).
+  destruct o; try discriminate Ho; cbn [m_step_raw].
+  - (* Create *) unfold m_create. cbv zeta.
+    match goal with |- context [match ?x with Some _ => _ | None => (s, RErr _) end] => destruct x as [[s1 f]|] eqn:Epre end;
+      [|exists []; now rewrite app_nil_r].
+    cbn [alloc_handle fst mhandles]. eexists. f_equal.
+    match type of Epre with
+    | match ?ef with Some _ => _ | None => _ end = _ => destruct ef as [f0|]
+    end.
+    + inversion Epre; subst. apply mhandles_upd.
+    + destruct (below_file s (normalize_path p)); [discriminate|].
+      pose proof (m_create_node_handles s (normalize_path p)) as Hc. destruct (m_create_node s (normalize_path p)) as [sx fx].
+      inversion Epre; subst. exact Hc.
+  - (* Mkdir *) exists []. rewrite app_nil_r. unfold m_mkdir. destruct (lookup s (normalize_path p)); [reflexivity|].
+    destruct (below_file s (normalize_path p)); [reflexivity|]. cbn [alloc_node]. rewrite set_file_mode_handles, reg_handles. reflexivity.
+  - (* MkdirAll *) exists []. rewrite app_nil_r. rewrite m_mkdirall_fst. unfold m_mkdir. destruct (lookup s (normalize_path p)); [reflexivity|].
+    destruct (below_file s (normalize_path p)); [reflexivity|]. cbn [alloc_node]. rewrite set_file_mode_handles, reg_handles. reflexivity.
+  - (* Open *) unfold m_open. destruct (lookup s (normalize_path p)); [|exists []; now rewrite app_nil_r].
+    cbn [alloc_handle fst mhandles]. eexists. reflexivity.
+  - (* OpenFile *) unfold m_openfile. cbv zeta.
+    assert (Tail : forall (s1 : mst) (f : nat) (created : bool), mhandles s1 = mhandles s ->
+      exists extra, mhandles (fst (
+        let ro := Z.land flag memfs_access_mask =? 0 in
+        let data := match get_node s1 f with Some n => ndata n | None => [] end in
+        let at_ := if flag_has flag o_append then zlen data else 0 in
+        let trunc := flag_has flag o_trunc && flag_has flag (Z.lor o_rdwr o_wronly) in
+        let s2 := if trunc && negb ro then upd_node s1 f (fun n => with_mtime (mclock s1) (with_data [] n)) else s1 in
+        let '(s3, h) := alloc_handle s2 (mkH f (if trunc && negb ro then at_ else at_) 0 false ro) in
+        if trunc && ro then (s2, RErr (EW KReadOnlyHandle))
+        else if created then match set_file_mode s3 (normalize_path p) (Z.land perm chmod_bits) with (s4, ROk) => (s4, RHandle h) | (s4, r) => (s4, r) end
+        else (s3, RHandle h))) = mhandles s ++ extra).
+    { intros s1 f created H1. cbv zeta.
+      set (tr := flag_has flag o_trunc && flag_has flag (Z.lor o_rdwr o_wronly)). set (ro := Z.land flag memfs_access_mask =? 0).
+      assert (H2 : mhandles (if tr && negb ro then upd_node s1 f (fun n => with_mtime (mclock s1) (with_data [] n)) else s1) = mhandles s)
+        by (destruct (tr && negb ro); [rewrite mhandles_upd|]; exact H1).
+      cbn [alloc_handle]. destruct (tr && ro); [exists []; rewrite app_nil_r; exact H2|].
+      destruct created.
+      - match goal with |- context [set_file_mode ?a ?b ?c] => pose proof (set_file_mode_handles a b c) as H4; destruct (set_file_mode a b c) as [s4 r4] end.
+        cbn [fst] in H4. eexists. destruct r4; cbn [fst]; rewrite H4; cbn [mhandles]; rewrite H2; reflexivity.
+      - cbn [fst mhandles]. rewrite H2. eexists. reflexivity. }
+    destruct (lookup s (normalize_path p)) as [f|].
+    + destruct (flag_has flag o_excl && flag_has flag o_create); [exists []; now rewrite app_nil_r|]. exact (Tail s f false eq_refl).
+    + destruct (flag_has flag o_create); [|exists []; now rewrite app_nil_r].
+      destruct (below_file s (normalize_path p)); [exists []; now rewrite app_nil_r|].
+      pose proof (m_create_node_handles s (normalize_path p)) as H. destruct (m_create_node s (normalize_path p)) as [s1 f]. exact (Tail s1 f true H).
+  - (* Remove *) exists []. rewrite app_nil_r. unfold m_remove. destruct (lookup s (normalize_path p)); [|reflexivity].
+    destruct (unregister s (normalize_path p)) as [[s1 [|]]|] eqn:E; [| |reflexivity]; cbn [fst set_data mhandles]; exact (unregister_handles _ _ _ _ E).
+  - (* RemoveAll *) exists []. rewrite app_nil_r. unfold m_removeall.
+    destruct (unregister s (normalize_path p)) as [[s1 b]|] eqn:E; [|reflexivity]. cbn [fst set_data mhandles]. exact (unregister_handles _ _ _ _ E).
+  - (* Rename *) exists []. rewrite app_nil_r. apply m_rename_handles.
+  - (* Stat *) exists []. rewrite app_nil_r. unfold m_stat. destruct (lookup s (normalize_path p)) as [f|]; [|reflexivity]. now destruct (get_node s f).
+  - (* Chmod *) exists []. rewrite app_nil_r. unfold m_chmod. destruct (lookup s (normalize_path p)); [apply set_file_mode_handles | reflexivity].
+  - (* Chown *) exists []. rewrite app_nil_r. unfold m_chown. destruct (lookup s (normalize_path p)); [apply mhandles_upd | reflexivity].
+  - (* Chtimes *) exists []. rewrite app_nil_r. unfold m_chtimes. destruct (lookup s (normalize_path p)); [apply mhandles_upd | reflexivity].
+Qed.
+
+Lemma nth_error_set_fwd {A} (l : list A) i v j x : nth_error l j = Some x ->
+  nth_error (list_set i v l) j = Some (if Nat.eqb i j then v else x).
+Proof.
+  intros Hj. destruct (Nat.eqb i j) eqn:E.
+  - apply Nat.eqb_eq in E. subst j. apply nth_list_set_same. apply nth_error_Some. congruence.
+  - apply Nat.eqb_neq in E. rewrite nth_list_set_other by exact E. exact Hj.
+Qed.
+
+(* EVERY method of MemMapFs and of its handles: a handle that is read-only or closed stays where it is and
+   stays read-only or closed *)
+Theorem layer_step_keeps_inert s o j h :
+  nth_error (mhandles s) j = Some h -> inert h = true ->
+  exists h', nth_error (mhandles (fst (m_step s o))) j = Some h' /\ inert h' = true.
+Proof.
+  intros Hj Hi. destruct (op_handle_of o) as [i|] eqn:Ho.
+  - (* a handle method *)
+    rewrite m_step_tick. cbn [fst]. change (mhandles (tick (fst (m_step_raw s o)))) with (mhandles (fst (m_step_raw s o))).
+    assert (Keep : forall s' : mst, mhandles s' = mhandles s -> exists h', nth_error (mhandles s') j = Some h' /\ inert h' = true)
+      by (intros s' E; rewrite E; eauto).
+    assert (Set_ : forall hd h' : hnd, nth_error (mhandles s) i = Some hd -> inert h' = inert hd \/ inert h' = true ->
+              exists h'', nth_error (mhandles (set_handle s i h')) j = Some h'' /\ inert h'' = true).
+    { intros hd h' Hhd Hx. cbn [set_handle mhandles]. rewrite (nth_error_set_fwd _ i h' j h Hj).
+      eexists. split; [reflexivity|]. destruct (Nat.eqb i j) eqn:E; [|exact Hi].
+      apply Nat.eqb_eq in E. subst j. destruct Hx as [Hx | Hx]; [|exact Hx]. rewrite Hx. congruence. }
+    destruct o; try discriminate Ho; cbn [op_handle_of] in Ho; inversion Ho; subst; clear Ho; cbn [m_step_raw]; unfold m_hop;
+      (destruct (nth_error (mhandles s) i) as [hd|] eqn:Hh; [|now apply Keep]);
+      (destruct (get_node s (href hd)) as [nd|]; [|now apply Keep]).
+    + pose proof (f_read_inert (ndata nd) hd n) as Hx. destruct (f_read (ndata nd) hd n) as [h' r]. cbn [fst] in *. apply (Set_ hd h' eq_refl). now left.
+    + pose proof (f_readat_inert (ndata nd) hd n off) as Hx. destruct (f_readat (ndata nd) hd n off) as [h' r]. cbn [fst] in *. apply (Set_ hd h' eq_refl). now left.
+    + pose proof (f_write_inert_h (ndata nd) hd b) as Hx. destruct (f_write (ndata nd) hd b) as [[d h'] r]. cbn [fst snd] in *.
+      destruct d; cbn [put_data]; [rewrite mhandles_upd|]; apply (Set_ hd h' eq_refl); now left.
+    + pose proof (f_writeat_inert_h (ndata nd) hd b off) as Hx. destruct (f_writeat (ndata nd) hd b off) as [[d h'] r]. cbn [fst snd] in *.
+      destruct d; cbn [put_data]; [rewrite mhandles_upd|]; apply (Set_ hd h' eq_refl); now left.
+    + pose proof (f_write_inert_h (ndata nd) hd b) as Hx. destruct (f_write (ndata nd) hd b) as [[d h'] r]. cbn [fst snd] in *.
+      destruct d; cbn [put_data]; [rewrite mhandles_upd|]; apply (Set_ hd h' eq_refl); now left.
+    + pose proof (f_seek_inert (ndata nd) hd off whence) as Hx. destruct (f_seek (ndata nd) hd off whence) as [h' r]. cbn [fst] in *. apply (Set_ hd h' eq_refl). now left.
+    + destruct (f_truncate (ndata nd) hd n) as [d r]. cbn [fst]. destruct d; cbn [put_data]; [rewrite mhandles_upd|]; now apply Keep.
+    + destruct (hclosed hd); [now apply Keep|]. cbn [fst].
+      destruct (hro hd); [|rewrite mhandles_upd]; apply (Set_ hd (set_closed hd) eq_refl); right; unfold inert; cbn; apply orb_true_r.
+    + assert (Hm : forall c, exists h'', nth_error (mhandles (fst (fst (m_readdir s i hd c)))) j = Some h'' /\ inert h'' = true).
+      { intros c. unfold m_readdir. destruct (get_node s (href hd)) as [n0|]; [|now apply Keep].
+        destruct (negb (ndir n0)); [now apply Keep|]. cbn [fst]. apply (Set_ hd _ eq_refl). now left. }
+      specialize (Hm n). destruct (m_readdir s i hd n) as [[s1 infos] e]. cbn [fst] in Hm.
+      destruct e as [er|]; [destruct infos; [destruct (errk_eqb (ek er) KEOF)|]|]; exact Hm.
+    + assert (Hm : forall c, exists h'', nth_error (mhandles (fst (fst (m_readdir s i hd c)))) j = Some h'' /\ inert h'' = true).
+      { intros c. unfold m_readdir. destruct (get_node s (href hd)) as [n0|]; [|now apply Keep].
+        destruct (negb (ndir n0)); [now apply Keep|]. cbn [fst]. apply (Set_ hd _ eq_refl). now left. }
+      specialize (Hm n). destruct (m_readdir s i hd n) as [[s1 infos] e]. cbn [fst] in Hm.
+      destruct e as [er|]; [destruct infos; [destruct (errk_eqb (ek er) KEOF)|]|]; exact Hm.
+    + now apply Keep.
+    + now apply Keep.
+    + now apply Keep.
+  - destruct (path_op_handles s o Ho) as (extra & E). rewrite E. exists h. split; [|exact Hi].
+    rewrite nth_error_app1; [exact Hj|]. apply nth_error_Some. congruence.
+Qed.
+
+(* and the handle CopyOnWriteFs.Open obtains from the layer is read-only *)
+Lemma layer_open_handle_inert s p s' lh : m_step s (Open p) = (s', RHandle lh) ->
+  exists h, nth_error (mhandles s') lh = Some h /\ inert h = true.
+Proof.
+  rewrite m_step_tick. cbn [m_step_raw]. unfold m_open. destruct (lookup s (normalize_path p)) as [f|]; [|discriminate].
+  cbn [alloc_handle fst snd]. intros H. inversion H; subst. exists (mkH f 0 0 false true). split; [apply nth_error_app_last | reflexivity].
+Qed.
+
+(* ---------------- the vocabulary of Props/C06.v, spelled out ---------------- *)
+Lemma file_op_meaning o :
+  file_op o = true <->
+  match o with
+  | HRead _ n | HReadAt _ n _ => 0 <= n
+  | HWrite _ _ | HWriteAt _ _ _ | HWriteString _ _ | HSeek _ _ _ | HTruncate _ _ | HClose _ | HStat _ | HSync _ => True
+  | _ => False
+  end.
+Proof. destruct o; cbn; try tauto; try (split; [discriminate | tauto]); apply Z.leb_le. Qed.
+
+Lemma spec_open_meaning flag data :
+  spec_open flag data =
+  let ro := Z.land flag memfs_access_mask =? 0 in
+  let trunc := flag_has flag o_trunc && flag_has flag (Z.lor o_rdwr o_wronly) && negb ro in
+  ByteFile.mkBS (if trunc then [] else data) [ByteFile.mkBH (Z.to_nat (if flag_has flag o_append then zlen data else 0)) false ro].
+Proof. reflexivity. Qed.
+
+Lemma proj_all_meaning ops outs :
+  MemFileProof.proj_all ops outs = map (fun '(o, r) => ByteFile.proj o r) (combine ops outs).
+Proof. reflexivity. Qed.
+
+Lemma uview_meaning sb sl k : uview sb sl k = match cview sl k with Some e => Some e | None => cview sb k end.
+Proof. reflexivity. Qed.
+
+Lemma op_names_abs_meaning o :
+  op_names_abs o = match o with
+                   | Create p | Mkdir p _ | MkdirAll p _ | Open p | OpenFile p _ _ | Remove p | RemoveAll p | Stat p
+                   | Chmod p _ | Chown p _ _ | Chtimes p _ => is_rooted p
+                   | Rename p q => is_rooted p && is_rooted q
+                   | _ => true
+                   end.
+Proof. reflexivity. Qed.
+
+Lemma failed_call_hyps_meaning sb sl tbl o :
+  (union_handles_inert sl tbl <->
+   forall i u lh h, nth_error tbl i = Some (HU u) -> ulayer u = Some lh -> nth_error (mhandles sl) lh = Some h ->
+     hro h || hclosed h = true) /\
+  (cow_call_ok sb sl o <->
+   match o with
+   | Rename p q => wf_op sl (Rename p q) = true \/ lookup sl (normalize_path p) = None
+   | Create p | OpenFile p _ _ | Chmod p _ | Chown p _ _ | Chtimes p _ =>
+       forall f nd, lookup sb (normalize_path p) = Some f -> get_node sb f = Some nd -> ndir nd = true -> ndata nd = []
+   | _ => True
+   end).
+Proof. split; [reflexivity | destruct o; reflexivity]. Qed.
